@@ -561,9 +561,11 @@ def r136(ctx, R):
                     if isinstance(x, ast.Assign):
                         for t in x.targets:
                             assigned.add(src(t))
-            forb = any('forbidden' in a for a in assigned)
-            req = any(a.startswith('required') or a == 'any_traits'
-                      for a in assigned)
+            sides = _returned_sides(f)
+            if sides is None:
+                continue
+            forb = bool(assigned & sides[1])
+            req = bool(assigned & sides[0])
             okp = True
             if lit.startswith('!'):
                 okp = not req
@@ -603,33 +605,88 @@ def r136(ctx, R):
          'a longer prefix is tested before any of its own prefixes '
          "('!in:' before '!')", chain, func=f)
     # the handler-level pairing: required groups are appended, forbidden
-    # ones are united
-    g = prog.func('placement.util:normalize_member_of_qs_params')
-    apps = [c for c in own_nodes(g.node) if isinstance(c, ast.Call)
-            and isinstance(c.func, ast.Attribute) and c.func.attr ==
-            'append' and src(c.func.value).startswith('required')]
-    ors = [a for a in own_nodes(g.node) if isinstance(a, ast.AugAssign)
-           and isinstance(a.op, ast.BitOr)
-           and src(a.target).startswith('forbidden')]
-    okp = len(apps) == 1 and src(apps[0].args[0]) == 'required' and \
-        len(ors) == 1 and src(ors[0].value) == 'forbidden'
+    # ones are united (decided by position in the returned pairs)
+    for q, single, what in (
+            ('placement.util:normalize_member_of_qs_params',
+             'placement.util:normalize_member_of_qs_param',
+             'every member_of value contributes: its required set is '
+             'appended (AND of any-of groups), its forbidden set is united'),
+            ('placement.util:normalize_traits_qs_params',
+             'placement.util:normalize_traits_qs_param',
+             'every required value contributes its any-of groups (appended) '
+             'and its forbidden traits (united)')):
+        g = prog.func(q)
+        ok, why = _accumulates(ctx, g, single)
+        R.ob('R13.6', '%s:accumulation' % q.split(':')[1], ok, what, why,
+             func=g)
+
+
+def _returned_sides(f):
+    """(names at position 0, names at position 1) over all returns of a
+    pair; None when some return is not a 2-tuple."""
+    a, b = set(), set()
+    rets = [r for r in own_nodes(f.node) if isinstance(r, ast.Return)]
+    if not rets:
+        return None
+    for r in rets:
+        if not (isinstance(r.value, ast.Tuple) and len(r.value.elts) == 2):
+            return None
+        a |= C.names_in(r.value.elts[0])
+        b |= C.names_in(r.value.elts[1])
+    return a, b
+
+
+def _accumulates(ctx, g, single):
+    sides = _returned_sides(g)
+    if sides is None or len(sides[0]) != 1 or len(sides[1]) != 1:
+        return False, 'does not return one (required, forbidden) pair'
+    racc, facc = list(sides[0])[0], list(sides[1])[0]
     loops = [x for x in own_nodes(g.node) if isinstance(x, ast.For)]
-    okp = okp and len(loops) == 1 and 'getall' in src(loops[0].iter) and \
-        not [x for x in own_nodes_of(loops[0])
-             if isinstance(x, (ast.Break, ast.Continue))]
-    R.ob('R13.6', 'normalize_member_of_qs_params:accumulation', okp,
-         'every member_of value contributes: its required set is appended '
-         '(AND of any-of groups), its forbidden set is united',
-         'appends=%d unions=%d' % (len(apps), len(ors)), func=g)
-    t = prog.func('placement.util:normalize_traits_qs_params')
-    adds = [a for a in own_nodes(t.node) if isinstance(a, ast.AugAssign)]
-    okt = sorted((src(a.target), type(a.op).__name__, src(a.value))
-                 for a in adds) == [('forbidden_traits', 'BitOr', 'fts'),
-                                    ('required_traits', 'Add', 'rts')]
-    R.ob('R13.6', 'normalize_traits_qs_params:accumulation', okt,
-         'every required value contributes its any-of groups (appended) '
-         'and its forbidden traits (united)',
-         [(src(a.target), src(a.value)) for a in adds], func=t)
+    if len(loops) != 1:
+        return False, '%d loops' % len(loops)
+    lp = loops[0]
+    if [x for x in own_nodes_of(lp) if isinstance(x, (ast.Break,
+                                                        ast.Continue))]:
+        return False, 'the loop skips values'
+    it = lp.iter
+    srcs = [it]
+    if isinstance(it, ast.Name):
+        srcs = [n.value for n in own_nodes(g.node)
+                if isinstance(n, ast.Assign) and any(
+                    isinstance(t, ast.Name) and t.id == it.id
+                    for t in n.targets)]
+    if not any('getall' in src(x) for x in srcs):
+        return False, 'the loop does not walk getall()'
+    calls = [c for c in C.calls_to(ctx, g, single)]
+    if len(calls) != 1:
+        return False, '%d calls of the value parser' % len(calls)
+    st = C.stmt_of(calls[0])
+    if not (isinstance(st, ast.Assign) and isinstance(
+            st.targets[0], ast.Tuple) and len(st.targets[0].elts) == 2 and
+            all(isinstance(x, ast.Name) for x in st.targets[0].elts)):
+        return False, 'the parser result is not unpacked into a pair'
+    rv, fv = [x.id for x in st.targets[0].elts]
+    # position 0 is appended / concatenated into the returned position 0
+    r_ok = False
+    for n in own_nodes_of(lp):
+        if isinstance(n, ast.Call) and isinstance(
+                n.func, ast.Attribute) and n.func.attr in (
+                    'append', 'extend') and src(n.func.value) == racc and \
+                n.args and src(n.args[0]) == rv:
+            r_ok = True
+        if isinstance(n, ast.AugAssign) and isinstance(
+                n.op, ast.Add) and src(n.target) == racc and src(
+                    n.value) == rv:
+            r_ok = True
+    f_ok = any(isinstance(n, ast.AugAssign) and isinstance(n.op, ast.BitOr)
+               and src(n.target) == facc and src(n.value) == fv
+               for n in own_nodes_of(lp))
+    # nothing else rebinds the accumulators inside the loop
+    other = [n for n in own_nodes_of(lp) if isinstance(n, ast.Assign)
+             and any(src(t) in (racc, facc) for t in n.targets)]
+    return (r_ok and f_ok and not other,
+            'required side accumulated: %s, forbidden side united: %s%s' % (
+                r_ok, f_ok, ', accumulator rebound' if other else ''))
 
 
 _run_c13 = run
